@@ -76,16 +76,8 @@ def run(tier):
     rng = random.Random(common.seed() * 7919 + 1)
     # ---- (1) design level: HOW refines WHAT, exhaustively over all tables in a box
     cfgs = QUICK_CFGS if tier == "quick" else THOROUGH_CFGS
-    with cf.ThreadPoolExecutor(max_workers=len(cfgs)) as ex:
-        futs = [ex.submit(tlc.run, "LabellingImpl", f"LabellingImpl_{c}.cfg",
-                          workers=max(2, common.NCPU // len(cfgs)), coverage=False) for c in cfgs]
-        for f in futs:
-            res = f.result()
-            tlc.need_ok(res)
-            rep.add_tlc(res)
-            if res.violated:
-                rep.violation("model:" + res.violated, {"tlc": res.trace[:6000], "cfg": res.label},
-                              "the HOW model of the kernel no longer satisfies the WHAT spec")
+    from . import _common
+    _common.model_checks(rep, [("LabellingImpl", f"LabellingImpl_{c}.cfg") for c in cfgs])
     # ---- (2) binding: the real kernel in three execution modes, validated by TLC against WHAT
     n = 240 if tier == "quick" else 6000
     cases = gen_cases(rng, n)
